@@ -9,6 +9,7 @@
 // usage: tsan_stress <rounds> <seed> [<only-scenario> <only-round>]
 // stdout: one line per round  "R <scenario> <round> <threads> ok"  or  "BAD <scenario> <round> <threads> <what>"
 // stderr: "ROUND <scenario> <round> <threads>" before each round (so that a TSan report can be attributed to its round)
+#include <atomic>
 #include <cstdio>
 #include <cstdlib>
 #include <cstring>
@@ -122,6 +123,49 @@ static std::string sc_enqueue_from_thread(size_t threads, size_t n) {
     return "";
 }
 
+// scenario 5: two pools; jobs of pool A enqueue jobs onto pool B that read what the A-job wrote (the property is per pool:
+// A.loop_until_empty() orders A's jobs, then B.loop_until_empty() orders the B-jobs they enqueued)
+static std::string sc_two_pools(size_t threads, size_t n) {
+    val.assign(2 * n, -1);
+    tlx::ThreadPool a(threads), b(1 + threads % 3);
+    for (size_t i = 0; i < n; ++i)
+        a.enqueue([&b, i, n]() { val[i] = 11 * static_cast<long>(i) + 3; b.enqueue([i, n]() { val[n + i] = val[i] + 1; }); });
+    a.loop_until_empty();
+    b.loop_until_empty();
+    for (size_t i = 0; i < n; ++i) {
+        if (val[i] != 11 * static_cast<long>(i) + 3) return "A slot " + std::to_string(i) + " = " + std::to_string(val[i]);
+        if (val[n + i] != val[i] + 1) return "B slot " + std::to_string(i) + " = " + std::to_string(val[n + i]);
+    }
+    if (a.done() != n || b.done() != n) return "done() = " + std::to_string(a.done()) + "/" + std::to_string(b.done());
+    return "";
+}
+// scenario 6: an observer thread polls done()/idle()/has_idle()/size()/thread(i) while the jobs run
+static std::string sc_observers(size_t threads, size_t n) {
+    tlx::ThreadPool pool(threads);
+    val.assign(n, -1);
+    std::string obs;
+    std::atomic<bool> stop(false);
+    std::thread observer([&]() {
+        size_t last = 0;
+        while (!stop.load()) {
+            size_t d = pool.done(), id = pool.idle();
+            if (d < last) obs = "done() went backwards: " + std::to_string(last) + " -> " + std::to_string(d);
+            if (d > n) obs = "done() = " + std::to_string(d) + " > number of jobs";
+            if (id > threads) obs = "idle() = " + std::to_string(id) + " > pool size";
+            if (pool.size() != threads) obs = "size() = " + std::to_string(pool.size());
+            (void)pool.has_idle(); (void)pool.thread(threads - 1).joinable();
+            last = d; std::this_thread::yield();
+        }
+    });
+    pool.enqueue([&pool, n]() { tree_job(&pool, 0, n, 3); });
+    pool.loop_until_empty();
+    stop.store(true); observer.join();
+    std::string r = check_tree(n, 3); if (!r.empty()) return r;
+    if (!obs.empty()) return obs;
+    if (pool.done() != n) return "done() = " + std::to_string(pool.done());
+    return "";
+}
+
 int main(int argc, char** argv) {
     int rounds = argc > 1 ? atoi(argv[1]) : 200;
     rng_state = argc > 2 ? strtoull(argv[2], nullptr, 10) : 1;
@@ -129,7 +173,7 @@ int main(int argc, char** argv) {
     int bad = 0;
     for (int r = 0; r < rounds; ++r) {
         size_t threads = 1 + static_cast<size_t>(r % 8);
-        int sc = static_cast<int>(rnd() % 5);
+        int sc = static_cast<int>(rnd() % 7);
         size_t n = 1 + static_cast<size_t>(rnd() % 40);
         int gens = 1 + static_cast<int>(rnd() % 3);
         bool coin = (rnd() & 1) != 0;
@@ -141,7 +185,9 @@ int main(int argc, char** argv) {
         case 1: res = sc_two_waiters(threads, n); break;
         case 2: res = sc_chain_terminate(threads, n); break;
         case 3: res = sc_client_terminate(threads, n, coin); break;
-        default: res = sc_enqueue_from_thread(threads, n); break;
+        case 4: res = sc_enqueue_from_thread(threads, n); break;
+        case 5: res = sc_two_pools(threads, n); break;
+        default: res = sc_observers(threads, n); break;
         }
         if (res.empty()) printf("R %d %d %zu ok\n", sc, r, threads);
         else { printf("BAD %d %d %zu %s\n", sc, r, threads, res.c_str()); ++bad; }
